@@ -65,8 +65,12 @@ def run(ctx):
     cases += [dict(je.gen_large_slack_case(ctx.rng, share=ctx.rng.choice([0, 0, 0.5, 0.25])), kind=PID.lower()) for _ in range(ctx.n(6, 60))]
     # (n_jobs+1)^limit >= 2^63: long operations (all basis states) and unit operations (selected states, exact energies)
     cases += [dict(je.gen_huge_limit_case(ctx.rng, share=ctx.rng.choice([0, 0, 0.5]), kind=k), kind=PID.lower()) for k in ["long", "long", "unit"] * ctx.n(1, 12)]
+    # one pair of operations with more than 1024 / 2048 penalised start-time combinations (exact energies of a systematic cover)
+    cases += [dict(je.gen_many_conflicts_case(ctx.rng, which=w), kind=PID.lower()) for w in (["overlap>1024", "precedence>1024"] if ctx.quick else ["overlap>1024", "overlap>2048", "precedence>1024", "precedence>2048"] * 3)]
+    je.assign_objects(ctx.rng, cases)
     for c in cases:
         summ = je.examiner(c)(ctx, batch, c, WANT, ctx.rng)
+        ctx.tally(f"objects:{c.get('objects', 'shared')}")
         tally_case(ctx, c, summ)
     je.report_mismatches(ctx, PID, batch)
 
